@@ -288,6 +288,35 @@ def check(pid, tier, seed):
                                                      "searched": "model-led and implementation-led monitors over %d histories" % all_stats.histories})
         violations.append(("proof", path, True))
     if rel_divs and not new:
+        # search: implementation-led histories biased toward the diverging handler
+        GEN_OF = {"liquid_stake": ["stake"], "liquid_unstake": ["unstake"], "submit_batch": ["submit", "advance"],
+                  "withdraw": ["withdraw", "deliver"], "receive_rewards": ["rewards"], "receive_unstaked_tokens": ["deliver"],
+                  "recover_pending_ibc_transfers": ["recover", "timeout", "stake"], "resume_contract": ["resume", "unauthorized"],
+                  "circuit_breaker": ["breaker"], "fee_withdraw": ["fee_withdraw"], "update_config": ["update_config"],
+                  "transfer_ownership": ["ownership"], "accept_ownership": ["ownership", "advance"], "reply": ["stake", "ack"],
+                  "sudo": ["ack", "timeout", "stray"]}
+        boosted = dict(spec["weights"])
+        for d in rel_divs[:3]:
+            call = d["detail"].get("call", {}) if isinstance(d["detail"], dict) else {}
+            var = monitors.variant(call.get("msg")) if call.get("entry") == "execute" else call.get("entry")
+            for k in GEN_OF.get(var, []):
+                boosted[k] = boosted.get(k, 5) * 4 + 20
+        if not spec.get("skip_staking"):
+            sprofile = dict(profile)
+            sprofile["weights"] = boosted
+            s3, _, f3 = run_parallel(400 if quick else 4000, seed + 99, sprofile, length + 30, builds[0], "impl", workers)
+            all_stats.merge(s3)
+            for f in f3:
+                if f["property"] == pid and match_known(f, known) is None:
+                    key = (f["monitor"], json.dumps(f["signature"], sort_keys=True))
+                    if key not in new:
+                        new[key] = f
+                        n += 1
+                        path = write_replay(pid, "monitor", f["seed"], n, {"seed": f["seed"], "monitor": f["monitor"], "signature": f["signature"],
+                                                                            "what": f["what"], "failing_event": f["event"], "events": f["events"],
+                                                                            "found_by": "search after correspondence break"})
+                        violations.append(("monitor", path, False))
+    if rel_divs and not new:
         found = None
         for d in rel_divs[:5]:
             if not d["events"] or "boot" not in d["events"][0] or "self" not in d["events"][0].get("boot", {}):
